@@ -548,6 +548,20 @@ def do_extract(u, spec, subs, tline):
                 fn_counts['T4'] = fn_counts.get('T4', 0) + 1
                 u.rewrites.append({'fn': ' :: '.join(path), 'file': relpath, 'kind': 'T4', 'what': note})
                 continue
+            if args[0] in ('let_init', 'const_array', 'closure_contract'):
+                if args[0] == 'let_init':
+                    # t4 let_init <var> <shim expression>
+                    text, note = t4mod.let_init(text, args[1], d.split(None, 3)[3])
+                elif args[0] == 'const_array':
+                    text, note = t4mod.const_array(text)
+                else:
+                    # t4 closure_contract <k> <name> <label> |typed params| <spec>
+                    rest = d.split(None, 5)[5]
+                    mm_ = re.match(r'\|([^|]*)\|\s*(.*)$', rest)
+                    text, note = t4mod.closure_contract(text, int(args[1]), args[2], args[3], mm_.group(1).strip(), mm_.group(2).strip())
+                fn_counts['T4'] = fn_counts.get('T4', 0) + 1
+                u.rewrites.append({'fn': ' :: '.join(path), 'file': relpath, 'kind': 'T4', 'what': note})
+                continue
             if args[0] == 'bind_call':
                 # t4 bind_call <callee> <lemma> [deref]
                 text, n = t4mod.bind_call(text, args[1], args[2], len(args) > 3 and args[3] == 'deref')
@@ -884,7 +898,7 @@ def classify(u, run, obligations):
         line = (prim or sec)[0]['line_start']
         f = fn_at(u, line)
         kind = None
-        if 'postcondition not satisfied' in msg:
+        if 'postcondition not satisfied' in msg or 'unable to prove post-condition of closure' in msg:
             kind = 'post'
         elif 'precondition not satisfied' in msg:
             kind = 'pre-of'
